@@ -678,6 +678,13 @@ func runConn(c *mon.Case, r *mon.Run, p params, sp **server) {
 		}
 	}
 	s.mu.Unlock()
+	// While every answer carries data the client polls again at once; Close
+	// must end that, whatever the server still has to say.  The original picks
+	// at random among the ready cases of its select, so a few more requests
+	// can follow Close; the chance of more than 100 is below (2/3)^100.
+	if afterClose > 100 {
+		s.viol("after-close/polling-continues-while-responses-carry-data", fmt.Sprintf("%d requests arrived after Close had returned (%d in total): polling only stopped when the server ran out of data", afterClose, total))
+	}
 	if late > 0 {
 		s.viol("after-close/polling-continues", fmt.Sprintf("%d request(s) arrived between 10 and 20 virtual minutes after Close had returned and the system had become quiescent (%d requests after Close in all, %d in total)", late, afterClose, total))
 	}
@@ -920,7 +927,7 @@ func TestCheck(t *testing.T) {
 		"non200 = 1/2/9/10/12 consecutive answers 500/404/403/503; fault = TCP abort in the response body / no response / silent close. "+
 		"Every connection ends with Close and the after-Close observations. Random dimensions come from the per-connection sub-seed. Non-trivial = at least one request reached the server; distinct = distinct (family, sub-seed).")
 	r.Note("exhaustive_part", "close family: every (close point 0..12) x (5 close mechanisms) cell is visited in both tiers; non200: every (run length, status) cell; fault: every (kind, request number) cell")
-	r.Note("not_judged", "behaviour under non-200 answers and transport faults beyond 'Read never returns bytes that are not the 200-response stream' (recorded: retries, whether the connection failed); the Host header / dial address under front (recorded); the number of requests after Close (recorded, only finiteness judged); data a Read returns after Close (accepted if it is the right stream data); whether written-but-unsent data is flushed by Close (prefix only); equality of session ids across connections (recorded as distinct count)")
+	r.Note("not_judged", "behaviour under non-200 answers and transport faults beyond 'Read never returns bytes that are not the 200-response stream' (recorded: retries, whether the connection failed); the Host header / dial address under front (recorded); the number of requests after Close (recorded; judged: finite, and at most 100 - the original's select picks at random among ready cases, so a handful can follow); data a Read returns after Close (accepted if it is the right stream data); whether written-but-unsent data is flushed by Close (prefix only); equality of session ids across connections (recorded as distinct count)")
 
 	// ---- family stream
 	nBatch := r.Pick(1, 4)
@@ -964,6 +971,33 @@ func TestCheck(t *testing.T) {
 				}
 			})
 		}
+	}
+	// ---- family sustained: Close while every response still carries data
+	// (the client re-polls at once after a non-empty answer, so this is the
+	// state of a long download); the server has several hundred more
+	// non-empty answers ready when Close arrives
+	for kind := ckSync; kind < nCloseKinds; kind++ {
+		kind := kind
+		r.Case(fmt.Sprintf("sustained/%s", closeKindNames[kind]), func(c *mon.Case) {
+			for k := 0; k < r.Pick(3, 40); k++ {
+				seed := r.Sub("sustained", kind, k)
+				rng := mon.NewRand(seed)
+				p := params{family: "sustained", seed: seed, closeKind: kind, closeStep: 2 + rng.IntN(8)}
+				sz := []int{1, 100, 700}[rng.IntN(3)]
+				for i := 0; i < 400; i++ {
+					p.resp = append(p.resp, sz)
+					p.think = append(p.think, time.Millisecond)
+				}
+				for i := 0; i < 12; i++ {
+					p.writes = append(p.writes, wstep{[]time.Duration{time.Millisecond, 7 * time.Millisecond, 20 * time.Millisecond}[rng.IntN(3)], 1 + rng.IntN(200)})
+				}
+				p.chunkedEvery = []int{0, 1, 3}[rng.IntN(3)]
+				p.front = rng.IntN(2) == 0
+				p.pol = rng.IntN(3)
+				conn(c, r, p)
+				r.Count("sustained_download_closes", 1)
+			}
+		})
 	}
 	// ---- family non200
 	for _, badLen := range []int{1, 2, 9, 10, 12} {
